@@ -233,8 +233,15 @@ func runC18(w *World) {
 				return false
 			}
 		}
-		// every article retrievable unchanged
-		for id, a := range n.Arts {
+		// every article retrievable unchanged (in id order: request order must not depend on map iteration)
+		var aids []int
+		for id := range n.Arts {
+			aids = append(aids, int(id))
+		}
+		sort.Ints(aids)
+		for _, iid := range aids {
+			id := uint32(iid)
+			a := n.Arts[id]
 			rep, ok := c.GetArticle(path, id)
 			if !ok || rep.Err != 0 {
 				w.Violate("c18-article-unanswered", "%s: article %d not answered", when, id)
